@@ -8,7 +8,9 @@ package main
 
 import (
 	"fmt"
+	"go/constant"
 	"go/token"
+	"go/types"
 	"sort"
 	"strings"
 
@@ -43,13 +45,40 @@ func runC10(c *Ctx) {
 // from function entry, not from a change of the in-memory map (shared with C08.R2).
 func c10R4(c *Ctx) {
 	const R4 = "C10.R4.returned-effects-persisted"
-	c.Expect(R4, 4)
+	c.Expect(R4, 6)
 	r := c08FindRoles(c, R4)
 	if r == nil {
 		return
 	}
 	for _, cs := range c08IndexCriticalSections(c.P, r) {
 		c.Check(R4, cs.Key, cs.Pos, cs.OK, ifelse(cs.OK, cs.How, cs.Why+" — two concurrent savers (Tag and Untag hold s.sync only in read mode) can then write index.json in the reverse order of their snapshots: an operation that already returned is undone on disk"))
+	}
+	// the storage operations themselves: success of Storage.Push means the blob was published under its name,
+	// success of Storage.Delete means the file was removed (directly or in a helper all of whose successful
+	// returns did it)
+	for _, op := range []struct {
+		name   string
+		effect func(n string) bool
+		what   string
+	}{
+		{"Storage.Push", func(n string) bool { return n == "os.Rename" || n == "(*os.Root).Rename" }, "published"},
+		{"Storage.Delete", func(n string) bool { return n == "os.Remove" || n == "(*os.Root).Remove" }, "removed"},
+	} {
+		f := c.P.Fn(c08Pkg, op.name)
+		if f == nil {
+			c.LostAnchor(R4, "~/content/oci."+op.name)
+			continue
+		}
+		sites := c09EffectSites(f, c09Identity, func(call ssa.CallInstruction, _ c09Bind) bool { return op.effect(CalleeName(call)) }, 2)
+		if len(sites) == 0 {
+			c.LostAnchor(R4, FnName(f)+": the call that makes the effect ("+op.what+")")
+			continue
+		}
+		ct := newCut()
+		c09SuccessCut(f, sites, ct)
+		okS, at := c09SuccessImplies(f, ct)
+		c.Check(R4, FnName(f)+"|success-implies-"+op.what, at, okS, ifelse(okS, "every return that may report success lies behind the successful file-system effect",
+			"the operation can report success although the file-system effect failed or did not run: the caller (and index.json, written next) relies on a blob state that is not on disk"))
 	}
 	promises, lost := c08PersistPromises(c.P, r)
 	for _, l := range lost {
@@ -169,7 +198,7 @@ func c10Operations(p *Prog, f *ssa.Function) []*ssa.Function {
 
 func c10R1(c *Ctx) {
 	const R1 = "C10.R1.fs-effect-inventory"
-	c.Expect(R1, 18)
+	c.Expect(R1, 19)
 	fns := c09FuncsOfPkg(c.P, c08Pkg)
 	if len(fns) == 0 {
 		c.LostAnchor(R1, "package ~/content/oci")
@@ -199,6 +228,19 @@ func c10R1(c *Ctx) {
 		}
 	}
 	CheckInventory(c, R1, sites, c10InventoryTable())
+	// the temporary file is created outside blobs/: the directory handed to CreateTemp is not put together from
+	// the blobs directory name (a crash would otherwise leave a partial file where only complete blobs may be)
+	if blobsDir, ok := c.P.Obj("github.com/opencontainers/image-spec/specs-go/v1", "ImageBlobsDir").(*types.Const); ok {
+		for _, f := range fns {
+			for _, ct := range CallsTo(f, "os.CreateTemp") {
+				consts := map[string]bool{}
+				c10PathConsts(c.P, ct.Common().Args[0], 0, consts)
+				okT := !consts[constant.StringVal(blobsDir.Val())]
+				c.Check(R1, c10opSPush+"|os.CreateTemp|outside-blobs", ct.Pos(), okT, ifelse(okT, "the directory of the temporary file is not derived from the blobs directory",
+					"the temporary file is created below "+constant.StringVal(blobsDir.Val())+"/: a crash during Push leaves a partial file among the blobs"))
+			}
+		}
+	}
 	// cleanup around the publication may only remove the ingest file, never the published blob
 	if push := c.P.Fn(c08Pkg, "Storage.Push"); push != nil {
 		var ing ssa.Value
@@ -220,6 +262,58 @@ func c10R1(c *Ctx) {
 				}
 				c.Check(R1, c10opSPush+"|os.Remove|removes-only-the-ingest-file", rmc.Pos(), ok, ifelse(ok, "the cleanup removes the path returned by ingest", "the cleanup in Push removes something else than the ingest file"))
 			}
+		}
+	}
+}
+
+// c10PathConsts: the string constants from which the path value v is put together
+// (Join of constants and other paths, concatenation, a struct field: what is
+// stored into that field anywhere in the package).
+func c10PathConsts(p *Prog, v ssa.Value, depth int, out map[string]bool) {
+	if v == nil || depth > 5 {
+		return
+	}
+	if sv, ok := constString(v); ok {
+		out[sv] = true
+		return
+	}
+	switch u := strip(v).(type) {
+	case *ssa.Phi:
+		for _, e := range u.Edges {
+			c10PathConsts(p, e, depth+1, out)
+		}
+	case *ssa.BinOp:
+		c10PathConsts(p, u.X, depth+1, out)
+		c10PathConsts(p, u.Y, depth+1, out)
+	case *ssa.Call:
+		for _, a := range u.Call.Args {
+			if el := c09LiteralElems(a); len(el) > 0 {
+				for _, e := range el {
+					c10PathConsts(p, e, depth+1, out)
+				}
+			} else {
+				c10PathConsts(p, a, depth+1, out)
+			}
+		}
+	case *ssa.UnOp:
+		fa, ok := u.X.(*ssa.FieldAddr)
+		if u.Op != token.MUL || !ok {
+			return
+		}
+		pt, _ := fa.X.Type().Underlying().(*types.Pointer)
+		if pt == nil {
+			return
+		}
+		for _, f := range c09FuncsOfPkg(p, c08Pkg) {
+			AllInstrs(f, func(in ssa.Instruction) {
+				st, ok := in.(*ssa.Store)
+				if !ok {
+					return
+				}
+				if fa2, ok := st.Addr.(*ssa.FieldAddr); ok && fa2.Field == fa.Field && types.Identical(fa2.X.Type(), fa.X.Type()) {
+					c10PathConsts(p, st.Val, depth+1, out)
+				}
+			})
 		}
 	}
 }
@@ -789,6 +883,18 @@ func c10R3DeleteGC(c *Ctx, R3 string, r *c08Roles) {
 }
 
 var c10Mutants = []Mutant{
+	// coverage review (all keep the repository's tests green)
+	{Name: "push-reports-success-when-rename-finds-target", File: "content/oci/storage.go",
+		Old:    "\t\tif errors.Is(err, os.ErrPermission) {\n",
+		New:    "\t\tif errors.Is(err, os.ErrExist) {\n\t\t\treturn nil // somebody else stored the same content\n\t\t}\n\t\tif errors.Is(err, os.ErrPermission) {\n",
+		Expect: "C10.R4.returned-effects-persisted|(*~/content/oci.Storage).Push|success-implies-published"},
+	{Name: "storage-delete-tolerates-permission-error", File: "content/oci/storage.go",
+		Old:    "\terr = os.Remove(targetPath)\n\tif err != nil {\n",
+		New:    "\terr = os.Remove(targetPath)\n\tif errors.Is(err, fs.ErrPermission) {\n\t\treturn nil // read-only file system: leave the blob\n\t}\n\tif err != nil {\n",
+		Expect: "C10.R4.returned-effects-persisted|(*~/content/oci.Storage).Delete|success-implies-removed"},
+	{Name: "ingest-directory-below-blobs", File: "content/oci/storage.go",
+		Old: "filepath.Join(rootAbs, \"ingest\")", New: "filepath.Join(rootAbs, ocispec.ImageBlobsDir, \"ingest\")",
+		Expect: "C10.R1.fs-effect-inventory|(*~/content/oci.Storage).Push|os.CreateTemp|outside-blobs"},
 	// R1
 	{Name: "stray-marker-file", File: "content/oci/oci.go",
 		Old: "\treachableNodes := s.graph.DigestSet()\n", New: "\treachableNodes := s.graph.DigestSet()\n\t_ = os.WriteFile(filepath.Join(s.root, \".gc\"), nil, 0666)\n",
